@@ -122,6 +122,7 @@ type sol struct {
 	peer      peer.ID
 	transport uint64
 	h         *dfake.Handler
+	cancel    context.CancelFunc
 }
 
 type node struct {
@@ -222,13 +223,15 @@ func (w *world) addSols() {
 		for _, s := range n.sols {
 			s.h = dfake.NewHandler()
 			dir := link_solicit.NewSolicitProtocol(s.v.p, s.v.ctx, s.peer, s.transport)
-			di := dfake.NewInstance(w.ctx, dir)
-			rs, err := n.ctrl.HandleDirective(w.ctx, di)
+			sctx, cancel := context.WithCancel(w.ctx)
+			s.cancel = cancel
+			di := dfake.NewInstance(sctx, dir)
+			rs, err := n.ctrl.HandleDirective(sctx, di)
 			if err != nil || len(rs) == 0 {
 				evid.Fatal("HandleDirective(SolicitProtocol): %v, %d resolvers", err, len(rs))
 			}
 			for _, r := range rs {
-				go func() { _ = r.Resolve(w.ctx, s.h) }()
+				go func() { _ = r.Resolve(sctx, s.h) }()
 			}
 		}
 	}
@@ -287,6 +290,34 @@ func runScenario(t *testing.T, le *logrus.Entry, lo, hi peer.ID, sc scenario) (r
 		w.mu.Lock()
 		opened = append(opened, w.opened...)
 		w.mu.Unlock()
+		cancel()
+		synctest.Wait()
+		w.closeStreams()
+		synctest.Wait()
+	})
+	return
+}
+
+// observeResolicit records (never judges) what happens when both sides release
+// a matched solicitation and solicit the identical value again on the same
+// link. Histories of adding/removing directives are outside the property's
+// quantifier (inputs), so this is reported as an observation only.
+func observeResolicit(t *testing.T, le *logrus.Entry, lo, hi peer.ID, v pc) (round1, round2 [2]int) {
+	synctest.Test(t, func(t *testing.T) {
+		ctx, cancel := context.WithCancel(context.Background())
+		w := newWorld(ctx, le, lo, hi)
+		w.addLinks()
+		w.a.sols, w.b.sols = []*sol{{v: v}}, []*sol{{v: v}}
+		w.addSols()
+		synctest.Wait()
+		round1 = [2]int{len(w.a.sols[0].h.Values()), len(w.b.sols[0].h.Values())}
+		w.a.sols[0].cancel()
+		w.b.sols[0].cancel()
+		synctest.Wait()
+		w.a.sols, w.b.sols = []*sol{{v: v}}, []*sol{{v: v}}
+		w.addSols()
+		synctest.Wait()
+		round2 = [2]int{len(w.a.sols[0].h.Values()), len(w.b.sols[0].h.Values())}
 		cancel()
 		synctest.Wait()
 		w.closeStreams()
@@ -449,8 +480,20 @@ func TestC30(t *testing.T) {
 		}
 		trivial := len(as) == 1 && len(bs) == 1 && same(as[0].v, bs[0].v) && as[0].c == (cons{"", "0"}) && bs[0].c == (cons{"", "0"})
 		outs := ""
-		judge := func(name string, me side, others []side, got int) {
+		judge := func(name string, me side, others []side, got int, sibs []side, sibGot []int) {
 			want := expect(me, others)
+			if want && got == 0 {
+				// One stream exists per matched value and link; if a sibling
+				// directive with the identical value on the same node obtained
+				// it, this solicitation's value was matched (who owns the single
+				// stream among identical local directives is C31's subject).
+				for i, sb := range sibs {
+					if sibGot[i] > 0 && same(sb.v, me.v) && admits(sb.c) {
+						outs += name + "=stream-went-to-sibling "
+						return
+					}
+				}
+			}
 			if got > 0 {
 				outs += name + "=matched "
 			} else {
@@ -489,10 +532,10 @@ func TestC30(t *testing.T) {
 			}
 		}
 		for i, s := range as {
-			judge(fmt.Sprintf("A%d", i), s, bs, ra[i])
+			judge(fmt.Sprintf("A%d", i), s, bs, ra[i], as, ra)
 		}
 		for i, s := range bs {
-			judge(fmt.Sprintf("B%d", i), s, as, rb[i])
+			judge(fmt.Sprintf("B%d", i), s, as, rb[i], bs, rb)
 		}
 		acc.Case(group, desc, !trivial, outs)
 	}
@@ -567,6 +610,8 @@ func TestC30(t *testing.T) {
 	acc.Sample(map[string]any{"group": "two-node/values", "A": dvals[0].String(), "B": dvals[1].String(), "expect": "neither directive receives a stream"})
 	acc.Sample(map[string]any{"group": "two-node/constraints", "A": dvals[0].String() + "[peer=remote,tpt=own]", "B": dvals[0].String() + "[peer=,tpt=other]", "expect": "no match: B's transport constraint excludes the link"})
 	acc.Finish()
+	r1, r2 := observeResolicit(t, le, lo, hi, dvals[0])
+	run.Cov["unjudged_resolicit_same_link"] = map[string]any{"first_round_streams_A_B": r1, "after_release_and_resolicit_streams_A_B": r2}
 	run.Cov["two_node_executions"] = nBubbles
 	run.Cov["alphabet"] = map[string]any{"values": fmt.Sprint(values), "peer_constraints": []string{"none", "remote", "third", "self"}, "transport_constraints": []string{"0", "own", "other(=remote's transport id)"}}
 	run.Assumptions = append(run.Assumptions,
